@@ -116,4 +116,10 @@ var props = map[string]propSpec{
 		"App Engine services are the in-memory fake (vae); caller identity, administrator flag and module are request attributes set by the harness, as App Engine's front end would",
 		"universe: two backends (one owned by user1 at /, one shared at /s), their two agents, two end users, an administrator; one client request in flight per backend; every agent call over endpoint x caller identity x named backend x request id (own, other backend's, unknown, none), alone and after each of four legitimate calls; administrator re-registering or deleting a backend between two calls of its former agent; the admin API under six identities",
 	}},
+	"C19": {Level: "fault_enumeration", Harnesses: []harnessSpec{
+		{Name: "appw", Quick: 180, Thorough: 1500, Args: []string{"-prop", "C19"}},
+	}, Assume: []string{
+		"App Engine services are the in-memory fake (vae) enforcing the 1,048,572-byte entity limit, the 1 MiB memcache item limit and the 500-key multi-operation limit",
+		"sizes: request and response bodies such that the stored (serialised) blob lands on every size in a window below and at 1,000,000 and 2,000,000 bytes, plus 0, 1, 4096 and 3,000,001; concurrency: two clients of one or two backends answered in every scripted order, by the wrong agent, or not at all (504 after 30 virtual seconds); faults: every single failing service call of one request/response cycle and every pair (quick: pairs at distance <= 6)",
+	}},
 }
